@@ -5,4 +5,5 @@ cd "$(dirname "$0")"
 export GOFLAGS=-mod=mod GOPROXY=off GOSUMDB=off GOTOOLCHAIN=local
 mkdir -p bin evidence
 go build -o bin/govc ./govc
+go build -o bin/perm ./perm
 echo "setup ok"
